@@ -117,3 +117,119 @@ def exec_effects(eff):
 
 def meta_effects(eff):
     return [e[1] for e in eff if e[0] == 'meta']
+
+
+def wf_json(j):
+    """DESIGN.md §2 W1–W8 on the protocol form of a chart — an independent re-implementation of the
+    Lean decision procedure `wfB` (lean/Sismic/Proofs/WFCheck.lean); the two are compared on every
+    `create` op."""
+    states = j['states']
+    names = [s['name'] for s in states]
+    n = len(names)
+    by_name = {}
+    for s in states:
+        by_name.setdefault(s['name'], s)
+
+    def parent_for(x):
+        for k, v in j['parent']:
+            if k == x:
+                return v
+        return None
+
+    def children_for(x):
+        for k, v in j['children']:
+            if k == x:
+                return v
+        return []
+
+    def kind(x):
+        s = by_name.get(x)
+        return s['kind'] if s else None
+
+    def has(x):
+        return x in by_name
+
+    def rank(x):
+        for i, nm in enumerate(names):
+            if nm == x:
+                return i
+        return 0
+
+    def ancestors(x):
+        out = []
+        for _ in range(n):
+            p = parent_for(x)
+            if p is None:
+                break
+            out.append(p)
+            x = p
+        return out
+
+    def lca(a, b):
+        bs = ancestors(b)
+        for x in ancestors(a):
+            if x in bs:
+                return x
+        return None
+
+    def last_before(s, l):
+        cur = s
+        for x in ancestors(s):
+            if x == l:
+                return cur
+            cur = x
+        return cur
+
+    owns = ('basic', 'compound', 'orthogonal')
+    # tree certificate: parents are registered before their children
+    for k, v in j['parent']:
+        if v is not None and not rank(v) < rank(k):
+            return False
+    if n == 0:
+        return False
+    if len(set(names)) != n:
+        return False
+    root = None
+    for k, v in j['parent']:
+        if v is None:
+            root = k
+            break
+    if root is None or parent_for(root) is not None or not has(root):
+        return False
+    for k, p in j['parent']:
+        if p is None:
+            continue
+        if not (has(k) and has(p) and kind(p) in ('compound', 'orthogonal') and k in children_for(p)):
+            return False
+        if kind(p) == 'orthogonal' and kind(k) is not None and kind(k) not in owns:
+            return False
+    for s in states:
+        if not (root == s['name'] or parent_for(s['name']) is not None):
+            return False
+    for k, l in j['children']:
+        if len(set(l)) != len(l):
+            return False
+        if k is not None and any(parent_for(ch) != k for ch in l):
+            return False
+    for s in states:
+        if s['kind'] == 'compound':
+            if s['initial'] is None or parent_for(s['initial']) != s['name']:
+                return False
+        if s['kind'] in ('shallow', 'deep'):
+            p = parent_for(s['name'])
+            if p is None or kind(p) != 'compound':
+                return False
+            m = s['memory']
+            if m is None or parent_for(m) != p or m == s['name']:
+                return False
+    for t in j['transitions']:
+        if not has(t['source']):
+            return False
+        tg = t['target']
+        if tg is not None:
+            if not has(tg):
+                return False
+            l = lca(t['source'], tg)
+            if l is not None and kind(l) == 'orthogonal' and last_before(t['source'], l) != last_before(tg, l):
+                return False
+    return True
